@@ -151,6 +151,69 @@ func runStepsSSC(alg refcrypto.Alg, ssc []byte, steps []step) result {
 	return res
 }
 
+// runInterleaved drives two independent terminal/chip pairs alternately in the given order (0 = session A, 1 = B).
+func runInterleaved(algA, algB refcrypto.Alg, order []int, steps []step) (string, string) {
+	type sess struct {
+		alg  refcrypto.Alg
+		chip *refcrypto.SM
+		lib  *iso7816.SecureMessaging
+		nfc  *iso7816.NfcSession
+		n    int
+		fail string
+	}
+	mk := func(alg refcrypto.Alg, label string, sscClass int) *sess {
+		enc, mac := smdrv.Keys(alg, label)
+		ssc := smdrv.SSCStart(alg, sscClass)
+		s := &sess{alg: alg, chip: refcrypto.NewSM(alg, enc, mac, ssc)}
+		s.lib, _ = smdrv.NewLibSM(alg, enc, mac, ssc)
+		w := &smdrv.Wire{}
+		w.F = func(_ int, wire []byte) []byte {
+			st := steps[s.n]
+			pc, err := smdrv.ChipUnwrap(s.chip, wire)
+			if err != nil {
+				s.fail = "chip rejects command: " + err.Error()
+				return []byte{0x69, 0x88}
+			}
+			want := pat(st.C.DataLen, byte(0x50+s.n))
+			if !(len(pc.Data) == len(want) && (len(want) == 0 || bytes.Equal(pc.Data, want))) {
+				s.fail = "chip decrypts other data than was sent"
+			}
+			d, sw := answer(st.A)
+			return s.chip.Wrap(d, sw, st.C.INS&1 == 1)
+		}
+		s.nfc = iso7816.NewNfcSession(w)
+		s.nfc.SetSecureMessaging(s.lib)
+		return s
+	}
+	ss := []*sess{mk(algA, "il-A", 0), mk(algB, "il-B", 1)}
+	for _, who := range order {
+		s := ss[who]
+		st := steps[s.n]
+		var data []byte
+		if st.C.DataLen > 0 {
+			data = pat(st.C.DataLen, byte(0x50+s.n))
+		}
+		var r *iso7816.RApdu
+		var err error
+		if pv, _ := vc.Guard(func() { r, err = s.nfc.DoAPDU(iso7816.NewCApdu(0, st.C.INS, byte(s.n), 0x0C, data, st.C.Le), "x") }); pv != nil {
+			return "interleaved/panic", fmt.Sprint(pv)
+		}
+		d, sw := answer(st.A)
+		switch {
+		case s.fail != "":
+			return "interleaved/sessions-interfere", fmt.Sprintf("session %d exchange %d: %s", who, s.n, s.fail)
+		case err != nil:
+			return "interleaved/sessions-interfere", fmt.Sprintf("session %d exchange %d: genuine response rejected: %v", who, s.n, err)
+		case r.Status != sw || !(len(r.Data) == len(d) && (len(d) == 0 || bytes.Equal(r.Data, d))):
+			return "interleaved/sessions-interfere", fmt.Sprintf("session %d exchange %d: wrong result delivered", who, s.n)
+		case !bytes.Equal(s.lib.SSC(), s.chip.SSCBytes()):
+			return "interleaved/sessions-interfere", fmt.Sprintf("session %d exchange %d: counters differ", who, s.n)
+		}
+		s.n++
+	}
+	return "", ""
+}
+
 type caseRec struct {
 	Alg   int    `json:"alg"`
 	SSC   int    `json:"ssc"`
@@ -288,6 +351,47 @@ part2:
 					c.Outcome(sec2b, "lockstep")
 				}
 				c.Distinct(fmt.Sprintf("carry/%d/%d/%d", alg, k, hi))
+			}
+		}
+	}
+	// part 2c: two independent sessions used alternately in one process (state that leaks between sessions - a scratch
+	// buffer or counter hoisted to package scope - shows only when sessions interleave)
+	sec2c := "two independent sessions, all interleavings of their exchanges"
+	c.SecBound(sec2c, "session pairs (alg A, alg B) in 4 x 4, each 3 exchanges; all 20 interleavings of 3+3 exchanges; both pairs must stay in lock-step and deliver exact results")
+	{
+		var orders [][]int
+		var gen func(cur []int, a, b int)
+		gen = func(cur []int, a, b int) {
+			if a == 3 && b == 3 {
+				orders = append(orders, append([]int{}, cur...))
+				return
+			}
+			if a < 3 {
+				gen(append(cur, 0), a+1, b)
+			}
+			if b < 3 {
+				gen(append(cur, 1), a, b+1)
+			}
+		}
+		gen(nil, 0, 0)
+		for _, algA := range smdrv.Algs {
+			for _, algB := range smdrv.Algs {
+				for oi, ord := range orders {
+					if !c.Mine() {
+						continue
+					}
+					key, what := runInterleaved(algA, algB, ord, []step{{shapes[3], 0}, {shapes[2], 2}, {shapes[1], 0}})
+					c.AddStates(6)
+					c.AddTrans(6)
+					c.AddTraces(1)
+					if key != "" {
+						c.Violation(sec2c, key, fmt.Sprintf("sessions %s/%s order %v: %s", algA, algB, ord, what), map[string]any{"algA": int(algA), "algB": int(algB), "order": ord}, nil)
+						c.Outcome(sec2c, "VIOLATION")
+					} else {
+						c.Outcome(sec2c, "independent")
+					}
+					c.Distinct(fmt.Sprintf("il/%d/%d/%d", algA, algB, oi))
+				}
 			}
 		}
 	}
